@@ -12,7 +12,7 @@ for seed in $seeds; do
   git -C $WT checkout -q -- .
   git -C $WT apply /verif/seeded/$seed/patch.diff || { echo "$seed PATCH-FAILS" >> $OUT; continue; }
   for c in ${CHECKS:-C07 C11 C12 C13 C14 C15 C16 C17 C18 C19 C20}; do
-    (cd /verif && VERIF_REPO=$WT PYTHONPATH=$WT timeout 900 ./check $c --workers ${W:-8} >/tmp/matrix_last.txt 2>/dev/null); rc=$?
+    (cd /verif && VERIF_REPO=$WT PYTHONPATH=$WT timeout 900 ./check $c --no-min --workers ${W:-8} >/tmp/matrix_last.txt 2>/dev/null); rc=$?
     echo -e "$seed\t$c\t$rc" >> $OUT
   done
 done
